@@ -253,13 +253,28 @@ pub fn run_terms(ch: &mut Choices, verbose: bool) -> TermsReport {
     // ---- swarm parameters (all from the choice sequence) ----
     let tape_mode = ch.weighted(&[20, 30, 30, 20]);
     let tape_seed = ch.bits() as u64;
-    let gp = GenParams {
-        max_depth: ch.range(1, 4),
-        max_fan: ch.range(2, 5),
-        n_names: ch.range(2, 6),
-        unordered_bias: ch.choose(4),
-        exotic: ch.chance(1, 5),
+    // "wide" runs: shallow descriptions with large unordered containers (9-16 elements)
+    let wide = ch.chance(1, 6);
+    let gp = if wide {
+        GenParams {
+            max_depth: ch.range(1, 2),
+            max_fan: ch.range(9, 16),
+            n_names: ch.range(8, 14),
+            unordered_bias: ch.choose(4),
+            exotic: false,
+        }
+    } else {
+        GenParams {
+            max_depth: ch.range(1, 4),
+            max_fan: ch.range(2, 5),
+            n_names: ch.range(2, 6),
+            unordered_bias: ch.choose(4),
+            exotic: ch.chance(1, 5),
+        }
     };
+    // caller threads: in "hop" runs some values are built, hashed or compared on another thread
+    // (one at a time: the simulated thread that runs next is a decision of the schedule)
+    let hops = ch.chance(1, 5);
     let rp = RealiseParams {
         reorder: !ch.chance(1, 10),
         duplicates: ch.chance(1, 2),
@@ -276,7 +291,7 @@ pub fn run_terms(ch: &mut Choices, verbose: bool) -> TermsReport {
     log.d.u64(tape_seed);
     log.line(|| {
         format!(
-            "hasher key tape: mode={} seed={tape_seed:#x} (hooked build: {HOOKED}); gen {gp:?}; realise {rp:?}; K={k_real} M={m_near}",
+            "hasher key tape: mode={} seed={tape_seed:#x} (hooked build: {HOOKED}); gen {gp:?}; realise {rp:?}; K={k_real} M={m_near} caller-thread hops={hops}",
             TAPE_MODES[tape_mode]
         )
     });
@@ -306,7 +321,24 @@ pub fn run_terms(ch: &mut Choices, verbose: bool) -> TermsReport {
                 if ch.chance(1, 3) {
                     history_noise(ch, rstats);
                 }
-                let term = realise(d, ch, rstats, &rp);
+                let term = if hops && ch.chance(1, 3) {
+                    // built on a fresh caller thread, with its own slice of the key tape
+                    rstats.thread_hops += 1;
+                    let tseed = tape_seed ^ (0x7468_7264 + pool.len() as u64 * 0x9E37);
+                    let built = std::thread::scope(|sc| {
+                        sc.spawn(|| {
+                            install_tape(tape_mode, tseed);
+                            guarded(|| realise(d, ch, rstats, &rp))
+                        })
+                        .join()
+                    });
+                    match built {
+                        Ok(Some(t)) => t,
+                        _ => panic!("realisation on a caller thread panicked"),
+                    }
+                } else {
+                    realise(d, ch, rstats, &rp)
+                };
                 let rt = abstract_term(&term);
                 let (layout, _) = layout_of(&term);
                 let label = format!("D{desc_idx}.r{r}");
@@ -476,6 +508,67 @@ pub fn run_terms(ch: &mut Choices, verbose: bool) -> TermsReport {
                                 message: msg,
                             });
                         }
+                    }
+                }
+                // ---- caller threads: the same questions asked on another thread ----
+                if hops {
+                    let remote = std::thread::scope(|sc| {
+                        sc.spawn(|| {
+                            guarded(|| {
+                                let hashes: Vec<[u64; 3]> = pool.iter().map(|e| hash3(&e.term, outer_key)).collect();
+                                let mut eqs = vec![vec![false; n]; n];
+                                for i in 0..n {
+                                    for j in 0..n {
+                                        eqs[i][j] = pool[i].term == pool[j].term;
+                                    }
+                                }
+                                // a container filled on this thread, probed by the caller afterwards
+                                let mut set: HashSet<Term, SipBuild> = HashSet::with_hasher(SipBuild);
+                                for e in pool.iter() {
+                                    set.insert(e.term.clone());
+                                }
+                                (hashes, eqs, set)
+                            })
+                        })
+                        .join()
+                    });
+                    stats.rstats.thread_hops += 1;
+                    match remote {
+                        Ok(Some((hashes, eqs, set))) => {
+                            stats.hash_evals += 3 * n as u64;
+                            stats.eq_evals += (n * n) as u64;
+                            for i in 0..n {
+                                let here = hash3(&pool[i].term, outer_key);
+                                log.d.u64(here[0] ^ hashes[i][0]);
+                                if here != hashes[i] && !violations.iter().any(|v| v.kind == "hash-depends-on-thread") {
+                                    let msg = format!("the same value hashes differently on another thread under the same hasher: {} `{}`", pool[i].label, show_physical(&pool[i].term));
+                                    log.line(|| format!("!! C07 hash-depends-on-thread: {msg}"));
+                                    violations.push(Violation { prop: "C07", kind: "hash-depends-on-thread".into(), message: msg });
+                                }
+                                // found again by an equal term, in a table filled on the other thread
+                                stats.container_ops += 1;
+                                if matrix[i][i] && !set.contains(&pool[i].term) && !violations.iter().any(|v| v.kind == "hash-set-filled-on-other-thread-misses-term") {
+                                    let msg = format!("a HashSet filled on another thread does not contain {} `{}` although an equal term was inserted", pool[i].label, show_physical(&pool[i].term));
+                                    log.line(|| format!("!! C07 hash-set-filled-on-other-thread-misses-term: {msg}"));
+                                    violations.push(Violation { prop: "C07", kind: "hash-set-filled-on-other-thread-misses-term".into(), message: msg });
+                                }
+                                for j in 0..n {
+                                    if eqs[i][j] != matrix[i][j] && !violations.iter().any(|v| v.kind == "eq-depends-on-thread") {
+                                        let msg = format!(
+                                            "a==b is {} on the caller thread and {} on another thread: a={} `{}` b={} `{}`",
+                                            matrix[i][j], eqs[i][j], pool[i].label, show_physical(&pool[i].term), pool[j].label, show_physical(&pool[j].term)
+                                        );
+                                        log.line(|| format!("!! C06 eq-depends-on-thread: {msg}"));
+                                        violations.push(Violation { prop: "C06", kind: "eq-depends-on-thread".into(), message: msg });
+                                    }
+                                }
+                            }
+                        }
+                        _ => violations.push(Violation {
+                            prop: "C06",
+                            kind: "panic-while-comparing-or-hashing".into(),
+                            message: "a panic escaped from ==, clone or hash on another thread".into(),
+                        }),
                     }
                 }
                 // ---- derived equalities: Sentence / Task / Narsese around the terms ----
